@@ -1,8 +1,11 @@
-(* C08 — proofs relating c2mir's layout model (CLayout.v) to the psABI rules (SysVLayout.v). *)
-From Coq Require Import ZArith List Bool Lia.
-From MirV Require Import C08.CLayout C08.SysVLayout.
+(* C08 — layout_eq_sysv: c2mir's layout model (CLayout.v) computes, for every well-formed
+   declaration, exactly the psABI layout (SysVLayout.v): size, alignment, the offset and size of
+   every named member, the storage unit and bit position of every bit-field. *)
+From Coq Require Import ZArith List Bool Lia ZifyBool.
+From MirV Require Import C08.CLayout C08.SysVLayout C08.WalkProofs C08.StepProofs C08.MemberProofs C08.AggProofs.
 Import ListNotations.
 Local Open Scope Z_scope.
+Ltac Zify.zify_post_hook ::= Z.div_mod_to_equations.
 
 (* ------------------------------------------------------------------ scalars and enums *)
 
@@ -16,4 +19,346 @@ Proof.
   repeat match goal with
   | |- context [if ?c then _ else _] => let E := fresh "E" in destruct c eqn:E
   end; try reflexivity; lia.
+Qed.
+
+(* ------------------------------------------------------------------ well-formed declarations *)
+
+Definition int_kind (k : bkind) : bool :=
+  match k with KFloat | KDouble | KLDouble => false | _ => true end.
+
+(* size in bytes of a type a bit-field may be declared with (0 = not allowed) *)
+Definition bf_size (t : ty) : Z :=
+  match t with
+  | TBasic k => if int_kind k then sv_scalar_size k else 0
+  | TEnum lo hi => sv_enum_size lo hi
+  | _ => 0
+  end.
+
+Definition is_agg (t : ty) : bool := match t with TAgg _ _ => true | _ => false end.
+
+Definition mk_ok (mk : mkind) (t : ty) : bool :=
+  match mk with
+  | MNamed => true
+  | MBits w named =>
+      (0 <? bf_size t) && (0 <=? w) && (w <=? 8 * bf_size t) && (negb (w =? 0) || negb named)
+  | MAnon => is_agg t
+  end.
+
+(* a member that occupies storage *)
+Definition sized_member (m : mkind * ty) : bool :=
+  match m with
+  | (MBits w _, _) => 0 <? w
+  | (_, t) => negb (is_flex t)
+  end.
+
+(* C11 declarations c2mir accepts, natural alignment only: array lengths positive, bit-fields of an
+   integer/_Bool/enum type no wider than the type, zero-width bit-fields unnamed, anonymous members
+   are structs/unions, a flexible array member only as the last named member of a struct, every
+   struct/union has a member that occupies storage. *)
+Fixpoint wf_ty (t : ty) : bool :=
+  match t with
+  | TBasic _ | TPtr | TEnum _ _ => true
+  | TArr n el => (0 <? n) && negb (is_flex el) && wf_ty el
+  | TFlex el => negb (is_flex el) && wf_ty el
+  | TAgg u ms =>
+      (fix go (ms : list (mkind * ty)) : bool :=
+         match ms with
+         | [] => true
+         | (mk, mt) :: r =>
+             mk_ok mk mt
+             && (negb (is_flex mt) || match mk with MNamed => true | _ => false end)
+             && wf_ty mt && go r
+         end) ms
+      && (if u then no_flex ms else flex_only_last ms)
+      && existsb sized_member ms
+  end.
+
+(* induction over types through the member lists *)
+Lemma ty_ind' (P : ty -> Prop) :
+  (forall k, P (TBasic k)) -> P TPtr -> (forall lo hi, P (TEnum lo hi)) ->
+  (forall n el, P el -> P (TArr n el)) -> (forall el, P el -> P (TFlex el)) ->
+  (forall u ms, Forall (fun m => P (snd m)) ms -> P (TAgg u ms)) ->
+  forall t, P t.
+Proof.
+  intros Hb Hp He Ha Hf Hg.
+  fix IH 1. intros [k| |lo hi|n el|el|u ms].
+  - apply Hb.
+  - apply Hp.
+  - apply He.
+  - apply Ha, IH.
+  - apply Hf, IH.
+  - apply Hg. induction ms as [|[mk mt] r IHr]; constructor; [apply IH | exact IHr].
+Qed.
+
+(* ------------------------------------------------------------------ the statement *)
+
+Record good (t : ty) : Prop := {
+  g_size : type_size (c2m_layout t) = sv_size (sysv_layout t);
+  g_align : align (c2m_layout t) = sv_align (sysv_layout t);
+  g_leaves : leaves (c2m_layout t) = sv_leaves (sysv_layout t);
+  g_mems : map norm (mems (c2m_layout t)) = sv_mems (sysv_layout t);
+  g_pos : 0 < sv_size (sysv_layout t);
+  g_pow2 : pow2a (sv_align (sysv_layout t));
+  g_mod : sv_size (sysv_layout t) mod sv_align (sysv_layout t) = 0 }.
+
+Lemma pow2a_max a b : pow2a a -> pow2a b -> pow2a (Z.max a b).
+Proof. unfold pow2a. lia. Qed.
+
+Lemma round_mult sz a n : pow2a a -> 0 <= sz -> sz mod a = 0 -> 0 <= n ->
+  round_size (sz * n) a = sz * n /\ (sz * n) mod a = 0.
+Proof.
+  intros Ha Hs Hm Hn. unfold round_size.
+  assert (exists k, sz = a * k /\ 0 <= k) as (k & -> & Hk) by (exists (sz / a); split_a Ha; lia).
+  replace (a * k * n) with (a * (k * n)) by lia.
+  assert (0 <= k * n) by (apply Z.mul_nonneg_nonneg; lia).
+  remember (k * n) as m. split_a Ha; lia.
+Qed.
+
+Lemma good_scalar sz : pow2a sz ->
+  forall t, c2m_layout t = mklay sz sz [] [] -> sysv_layout t = mksvl sz sz [] [] -> good t.
+Proof.
+  intros Hp t Hc Hs. constructor; rewrite ?Hc, ?Hs; cbn; try reflexivity; auto.
+  - unfold type_size. cbn. unfold round_size. split_a Hp; cbn; lia.
+  - split_a Hp; lia.
+  - split_a Hp; reflexivity.
+Qed.
+
+Lemma pow2a_scalar k : pow2a (sv_scalar_size k).
+Proof. unfold pow2a. destruct k; cbn; lia. Qed.
+
+Lemma pow2a_enum lo hi : pow2a (sv_enum_size lo hi).
+Proof. unfold pow2a, sv_enum_size. destruct (_ || _); lia. Qed.
+
+(* ------------------------------------------------------------------ the psABI side alone: sizes are positive *)
+
+Lemma sv_struct_step_mono mk t sl s :
+  member_ok mk (sv_size sl) (sv_align sl) -> 0 <= pos s -> pow2a (salign s) ->
+  let s' := sv_struct_step mk t sl s in
+  pos s <= pos s' /\ pow2a (salign s') /\ (sized_member (mk, t) = true -> 0 < pos s').
+Proof.
+  intros (Hpos & Ha & Hmod & Hmk) Hp Hal. cbv zeta.
+  destruct mk as [|w named|]; unfold sv_struct_step, sized_member.
+  - cbn [pos salign]. rewrite sv_is_flex_eq.
+    pose proof (align_up_mult (bytes_of_bits (pos s)) (sv_align sl) Ha ltac:(unfold bytes_of_bits; lia)) as [_ H].
+    unfold bytes_of_bits in *. repeat split.
+    + destruct (is_flex t); lia.
+    + apply pow2a_max; auto.
+    + intros Hs. destruct (is_flex t); [discriminate|]. lia.
+  - destruct Hmk as (Hsa & Ha8 & Hw & Hn). rewrite Hsa in *.
+    destruct (w =? 0) eqn:E; cbn [pos salign].
+    + repeat split; auto.
+      * unfold align_up. split_a Ha; lia.
+      * intros Hs. lia.
+    + assert (pos s <= (if pos s mod (8 * sv_align sl) + w <=? 8 * sv_align sl then pos s
+                        else align_up (pos s) (8 * sv_align sl))).
+      { destruct (_ <=? _); [lia|]. unfold align_up. split_a Ha; lia. }
+      repeat split.
+      * lia.
+      * destruct named; auto. apply pow2a_max; auto.
+      * intros _. lia.
+  - cbn [pos salign]. rewrite sv_is_flex_eq.
+    pose proof (align_up_mult (bytes_of_bits (pos s)) (sv_align sl) Ha ltac:(unfold bytes_of_bits; lia)) as [_ H].
+    unfold bytes_of_bits in *. repeat split.
+    + destruct (is_flex t); lia.
+    + apply pow2a_max; auto.
+    + intros Hs. destruct (is_flex t); [discriminate|]. lia.
+Qed.
+
+Lemma sv_union_step_mono mk t sl s :
+  member_ok mk (sv_size sl) (sv_align sl) -> 0 <= pos s -> pow2a (salign s) ->
+  let s' := sv_union_step mk t sl s in
+  pos s <= pos s' /\ pow2a (salign s') /\ (sized_member (mk, t) = true -> 0 < pos s').
+Proof.
+  intros (Hpos & Ha & Hmod & Hmk) Hp Hal. cbv zeta.
+  destruct mk as [|w named|]; unfold sv_union_step, sized_member.
+  - cbn [pos salign]. rewrite sv_is_flex_eq. repeat split.
+    + lia.
+    + apply pow2a_max; auto.
+    + intros Hs. destruct (is_flex t); [discriminate|]. lia.
+  - destruct Hmk as (Hsa & Ha8 & Hw & Hn).
+    destruct (w =? 0) eqn:E; cbn [pos salign].
+    + repeat split; auto; try lia.
+    + repeat split; try lia. destruct named; auto. apply pow2a_max; auto.
+  - cbn [pos salign]. rewrite sv_is_flex_eq. repeat split.
+    + lia.
+    + apply pow2a_max; auto.
+    + intros Hs. destruct (is_flex t); [discriminate|]. lia.
+Qed.
+
+Lemma sv_fold_mono (S : ty -> svlay) u ms :
+  Forall (fun '(mk, t) => member_ok mk (sv_size (S t)) (sv_align (S t))) ms ->
+  forall s, 0 <= pos s -> pow2a (salign s) ->
+  let s' := fold_left (sstep u) (sm S ms) s in
+  pos s <= pos s' /\ pow2a (salign s') /\ (existsb sized_member ms = true -> 0 < pos s').
+Proof.
+  induction ms as [|[mk t] r IH]; intros Hg s Hp Hal; cbv zeta.
+  - cbn. split; [lia | split; [auto | discriminate]].
+  - inversion Hg as [|? ? Hm Hr]; subst.
+    change (sm S ((mk, t) :: r)) with ((mk, t, S t) :: sm S r).
+    cbn [fold_left sstep existsb].
+    set (s1 := (if u then sv_union_step else sv_struct_step) mk t (S t) s).
+    assert (H1 : pos s <= pos s1 /\ pow2a (salign s1) /\ (sized_member (mk, t) = true -> 0 < pos s1)).
+    { unfold s1. destruct u; [apply sv_union_step_mono | apply sv_struct_step_mono]; auto. }
+    destruct H1 as (H1 & H2 & H3).
+    destruct (IH Hr s1 ltac:(lia) H2) as (H4 & H5 & H6).
+    split; [lia | split; [exact H5|]].
+    intros Hs. apply orb_prop in Hs as [Hs|Hs].
+    + specialize (H3 Hs). lia.
+    + apply H6, Hs.
+Qed.
+
+(* ------------------------------------------------------------------ structs and unions *)
+
+Lemma c2m_layout_agg u ms : c2m_layout (TAgg u ms) = agg_layout u (cm c2m_layout ms).
+Proof.
+  cbn [c2m_layout]. f_equal. unfold cm.
+  induction ms as [|[mk mt] r IH]; [reflexivity|]. cbn [map]. f_equal. exact IH.
+Qed.
+
+Lemma sysv_layout_agg u ms : sysv_layout (TAgg u ms) = sv_agg_layout u (sm sysv_layout ms).
+Proof.
+  cbn [sysv_layout]. f_equal. unfold sm.
+  induction ms as [|[mk mt] r IH]; [reflexivity|]. cbn [map]. f_equal. exact IH.
+Qed.
+
+Lemma inv_init : Inv init_fstate 0.
+Proof. constructor; cbn; try lia; try (unfold bytes_of_bits; cbn; lia). Qed.
+
+Lemma uinv_init : UInv init_fstate 0.
+Proof. constructor; cbn; try lia; auto. Qed.
+
+Lemma good_agg (u : bool) ms :
+  Forall (mgood c2m_layout sysv_layout) ms ->
+  (if u then no_flex ms else flex_only_last ms) = true ->
+  existsb sized_member ms = true ->
+  good (TAgg u ms).
+Proof.
+  intros Hg Hfl Hsz.
+  assert (Hok : Forall (fun '(mk, t) => member_ok mk (sv_size (sysv_layout t)) (sv_align (sysv_layout t))) ms).
+  { eapply Forall_impl; [|exact Hg]. intros [mk t] (_ & _ & _ & H & _). exact H. }
+  destruct (sv_fold_mono sysv_layout u ms Hok (mksv 0 1 [] []) ltac:(cbn; lia) ltac:(cbn; unfold pow2a; lia))
+    as (Hp1 & Hp2 & Hp3).
+  specialize (Hp3 Hsz). cbn [pos] in Hp1.
+  pose proof (align_fold c2m_layout sysv_layout u ms Hg 1 0 [] []) as Hal.
+  destruct (fold_left (cstep u) (cm c2m_layout ms) (init_fstate, [], [])) as [[s' ls'] rs'] eqn:E.
+  set (sv' := fold_left (sstep u) (sm sysv_layout ms) (mksv 0 1 [] [])) in *.
+  assert (Hc : c2m_layout (TAgg u ms) = mklay (used s') (max_align (cm c2m_layout ms)) ls' rs').
+  { rewrite c2m_layout_agg. unfold agg_layout. fold (cstep u). rewrite E. reflexivity. }
+  assert (Hs : sysv_layout (TAgg u ms)
+               = mksvl (align_up (bytes_of_bits (pos sv')) (salign sv')) (salign sv') (sleaves sv') (smems sv')).
+  { rewrite sysv_layout_agg. reflexivity. }
+  assert (H : used s' = bytes_of_bits (pos sv') /\ ls' = sleaves sv' /\ map norm rs' = smems sv').
+  { destruct u.
+    - exact (union_fold c2m_layout sysv_layout ms Hg Hfl init_fstate [] [] 0 1 uinv_init s' ls' rs' E).
+    - exact (struct_fold c2m_layout sysv_layout ms Hg Hfl init_fstate [] [] 0 1 inv_init s' ls' rs' E). }
+  destruct H as (Hu & Hl & Hr).
+  assert (Hma : max_align (cm c2m_layout ms) = salign sv') by exact Hal.
+  assert (Hbb : 0 < bytes_of_bits (pos sv')) by (unfold bytes_of_bits; lia).
+  destruct (align_up_mult (bytes_of_bits (pos sv')) (salign sv') Hp2 ltac:(lia)) as [Hm1 Hm2].
+  constructor; rewrite ?Hc, ?Hs; cbn [raw_size align leaves mems sv_size sv_align sv_leaves sv_mems].
+  - unfold type_size. cbn [raw_size align]. rewrite Hma, Hu.
+    replace (salign sv' =? 0) with false by (split_a Hp2; lia). reflexivity.
+  - exact Hma.
+  - exact Hl.
+  - exact Hr.
+  - lia.
+  - exact Hp2.
+  - unfold align_up in *. split_a Hp2; lia.
+Qed.
+
+(* ------------------------------------------------------------------ the theorem *)
+
+Lemma bf_size_layout t : 0 < bf_size t ->
+  sv_size (sysv_layout t) = bf_size t /\ sv_align (sysv_layout t) = bf_size t /\ bf_size t <= 8.
+Proof.
+  destruct t as [k| |lo hi|n el|el|u ms]; cbn [bf_size]; try lia.
+  - destruct k; cbn; lia.
+  - cbn. unfold sv_enum_size. destruct (_ || _); lia.
+Qed.
+
+Lemma mk_ok_member_ok mk t :
+  good t -> mk_ok mk t = true ->
+  member_ok mk (sv_size (sysv_layout t)) (sv_align (sysv_layout t)).
+Proof.
+  intros G Hmk. unfold member_ok.
+  split; [apply (g_pos _ G)|]. split; [apply (g_pow2 _ G)|]. split; [apply (g_mod _ G)|].
+  destruct mk as [|w named|]; auto.
+  cbn [mk_ok] in Hmk.
+  apply andb_prop in Hmk as [Hmk H4]. apply andb_prop in Hmk as [Hmk H3].
+  apply andb_prop in Hmk as [H1 H2].
+  destruct (bf_size_layout t ltac:(lia)) as (E1 & E2 & E3).
+  rewrite E1, E2. repeat split; try lia.
+  intros ->. cbn in H4. destruct named; [discriminate|reflexivity].
+Qed.
+
+Lemma wf_members_good u ms :
+  Forall (fun m => wf_ty (snd m) = true -> good (snd m)) ms ->
+  wf_ty (TAgg u ms) = true ->
+  Forall (mgood c2m_layout sysv_layout) ms
+  /\ (if u then no_flex ms else flex_only_last ms) = true
+  /\ existsb sized_member ms = true.
+Proof.
+  intros HF Hwf. cbn [wf_ty] in Hwf.
+  apply andb_prop in Hwf as [Hwf Hs]. apply andb_prop in Hwf as [Hgo Hfl].
+  split; [|split; assumption].
+  clear Hfl Hs. induction ms as [|[mk mt] r IH]; constructor.
+  - inversion HF as [|? ? H1 H2]; subst. cbn [snd] in H1.
+    apply andb_prop in Hgo as [Hgo _]. apply andb_prop in Hgo as [Hgo Hw].
+    apply andb_prop in Hgo as [Hmk Hflex].
+    specialize (H1 Hw). unfold mgood.
+    split; [apply (g_size _ H1)|]. split; [apply (g_align _ H1)|]. split; [apply (g_leaves _ H1)|].
+    split; [apply mk_ok_member_ok; assumption|].
+    intros Hf. rewrite Hf in Hflex. cbn in Hflex. destruct mk; try discriminate. reflexivity.
+  - inversion HF as [|? ? H1 H2]; subst. apply IH; auto.
+    apply andb_prop in Hgo as [_ Hgo]. exact Hgo.
+Qed.
+
+Theorem layout_good : forall t, wf_ty t = true -> good t.
+Proof.
+  induction t as [k| |lo hi|n el IH|el IH|u ms IH] using ty_ind'; intros Hwf.
+  - apply (good_scalar (sv_scalar_size k) (pow2a_scalar k)); destruct k; reflexivity.
+  - apply (good_scalar 8); [unfold pow2a; lia | reflexivity | reflexivity].
+  - apply (good_scalar (sv_enum_size lo hi) (pow2a_enum lo hi)).
+    + cbn [c2m_layout]. unfold basic_type_align. rewrite enum_size_eq. reflexivity.
+    + reflexivity.
+  - cbn [wf_ty] in Hwf. apply andb_prop in Hwf as [Hwf Hw]. apply andb_prop in Hwf as [Hn Hfl].
+    specialize (IH Hw). destruct IH as [G1 G2 G3 G4 G5 G6 G7].
+    destruct (round_mult (sv_size (sysv_layout el)) (sv_align (sysv_layout el)) n G6 ltac:(lia) G7 ltac:(lia))
+      as [R1 R2].
+    constructor; cbn [c2m_layout sysv_layout raw_size align leaves mems sv_size sv_align sv_leaves sv_mems map].
+    + unfold type_size at 1. cbn [raw_size align]. rewrite G1, G2.
+      replace (sv_align (sysv_layout el) =? 0) with false by (split_a G6; lia). exact R1.
+    + exact G2.
+    + exact G3.
+    + reflexivity.
+    + apply Z.mul_pos_pos; lia.
+    + exact G6.
+    + exact R2.
+  - cbn [wf_ty] in Hwf. apply andb_prop in Hwf as [Hfl Hw].
+    specialize (IH Hw). destruct IH as [G1 G2 G3 G4 G5 G6 G7].
+    destruct (round_mult (sv_size (sysv_layout el)) (sv_align (sysv_layout el)) 1 G6 ltac:(lia) G7 ltac:(lia))
+      as [R1 R2].
+    constructor; cbn [c2m_layout sysv_layout raw_size align leaves mems sv_size sv_align sv_leaves sv_mems map].
+    + unfold type_size at 1. cbn [raw_size align]. rewrite G1, G2.
+      replace (sv_align (sysv_layout el) =? 0) with false by (split_a G6; lia).
+      rewrite R1. lia.
+    + exact G2.
+    + reflexivity.
+    + reflexivity.
+    + exact G5.
+    + exact G6.
+    + exact G7.
+  - destruct (wf_members_good u ms IH Hwf) as (H1 & H2 & H3).
+    apply good_agg; assumption.
+Qed.
+
+(* the statement in the words of DESIGN: sizeof, _Alignof, every member's byte offset / size and
+   every bit-field's storage unit, bit offset and width agree with the psABI *)
+Theorem layout_eq_sysv_lemma : forall t, wf_ty t = true ->
+  type_size (c2m_layout t) = sv_size (sysv_layout t) /\
+  align (c2m_layout t) = sv_align (sysv_layout t) /\
+  leaves (c2m_layout t) = sv_leaves (sysv_layout t) /\
+  map norm (mems (c2m_layout t)) = sv_mems (sysv_layout t).
+Proof.
+  intros t H. destruct (layout_good t H) as [G1 G2 G3 G4 _ _ _]. auto.
 Qed.
